@@ -35,6 +35,10 @@ func (a *application) start(mode gen.ApplicationMode, options gen.ApplicationOpt
 
 	// forget the reason of the previous run
 	a.reason = nil
+	// a member may terminate (or the start may be rolled back) before the
+	// loop below is over: the mode and the stopped channel of this run must exist by then
+	a.mode = mode
+	a.stopped = make(chan struct{})
 
 	// build app env
 	appEnv := make(map[gen.Env]any)
@@ -83,9 +87,7 @@ func (a *application) start(mode gen.ApplicationMode, options gen.ApplicationOpt
 		a.group.Store(pid, true)
 	}
 
-	a.stopped = make(chan struct{})
 	a.node.log.Info("application %s (%s) started", a.spec.Name, a.mode)
-	a.mode = mode
 	a.parent = options.CorePID.Node
 
 	a.started = time.Now().Unix()
